@@ -531,7 +531,7 @@ def rule_c11_best_states(prog: Program, col: Collector) -> None:
     kw = samp[0].kwargs
     pr = ref.positional_params()
     col.check(kw.get("max_size") == ("param", pr[1]) and kw.get("samples") == ("param", pr[2]), ref.where(samp[0].node), ref.short,
-              "sampling uses max_size=max_steps and samples=repetitions", construct="best-sampling-args", necessity="")
+              "sampling uses max_size=max_steps and samples=repetitions", construct="best-sampling-args", necessity="the search must enumerate sets up to the requested size and sample the requested number of games")
 
     col.rule("P9", "MetaGame works on a copy; get_value = paired reset to (chosen coalitions + minimal information), recompute, divergence", 4)
     mm = prog.methods("meta_game.MetaGame")
@@ -547,14 +547,14 @@ def rule_c11_best_states(prog: Program, col: Collector) -> None:
               necessity="get_value resets the game's knowledge: working on the caller's object corrupts the caller")
     kz = [e for e in ift.of_kind("store") if e.attr == "k_zero"]
     okk = bool(kz) and is_call_to(kz[-1].value, "list") and kz[-1].value[2] and is_call_to(kz[-1].value[2][0], P + "coalitions.minimal_game_coalitions")
-    col.check(okk, init.where(), init.short, "k_zero is the materialised minimal information", construct="meta-kzero", necessity="")
+    col.check(okk, init.where(), init.short, "k_zero is the materialised minimal information", construct="meta-kzero", necessity="the meta-game's knowledge is the minimal information plus the chosen coalitions: k_zero must be exactly the minimal information (materialised: it is iterated repeatedly)")
     pl = [e for e in ift.of_kind("store") if e.attr == "players"]
     okp = False
     if pl and pl[-1].value[0] == "comp":
         v = pl[-1].value
         elem, it, conds = v[3][0]
         okp = v[2] == elem and is_call_to(it, P + "coalitions.all_coalitions") and len(conds) == 1 and conds[0][0] == "cmp" and conds[0][1] == "not in" and conds[0][2] == elem
-    col.check(okp, init.where(), init.short, "meta players = all coalitions outside the minimal information", construct="meta-players", necessity="")
+    col.check(okp, init.where(), init.short, "meta players = all coalitions outside the minimal information", construct="meta-players", necessity="the meta-game's players are exactly the coalitions that can be revealed")
     gft = fterms(prog, gv)
     Rm = ("attr", SELF, "_incomplete")
     t1 = T1(prog)
@@ -569,4 +569,4 @@ def rule_c11_best_states(prog: Program, col: Collector) -> None:
               necessity="the meta-game must return the gap of exactly (minimal information + chosen coalitions)")
     rv = list(gft.of_kind("return"))
     col.check(len(rv) == 1 and rv[0].value == ("call", ("attr", SELF, "divergence"), (Rm,), ()), gv.where(), gv.short,
-              "returns divergence(self._incomplete)", construct="meta-return", necessity="")
+              "returns divergence(self._incomplete)", construct="meta-return", necessity="the value of a meta-coalition is the gap of the game with exactly that knowledge")
